@@ -61,6 +61,10 @@ type Scenario struct {
 	Jitter     int64          `json:"jitter,omitempty"`
 	Sync       bool           `json:"sync,omitempty"` // drive through a SyncProducer (SendMessages per wave)
 	Extra      map[string]int `json:"extra,omitempty"`
+	// WaveWaits[w] > 0: wave w is submitted only after that many terminal events were received (2 s bound).
+	WaveWaits []int `json:"wavewaits,omitempty"`
+	// MetaUpAtWave > 0: a Fault.MetaDown period ends just before that wave is submitted.
+	MetaUpAtWave int `json:"metaupatwave,omitempty"`
 }
 
 // Meta is what the harness stores in ProducerMessage.Metadata.
@@ -315,6 +319,22 @@ func Run(sc *Scenario) *Result {
 	res.HeldReached = make([]bool, len(gates))
 	var syncWG sync.WaitGroup
 	for w := 0; w <= maxWave; w++ {
+		if w < len(sc.WaveWaits) && sc.WaveWaits[w] > 0 {
+			deadline := time.Now().Add(2 * time.Second)
+			for time.Now().Before(deadline) {
+				omu.Lock()
+				n := len(succ) + len(errs)
+				omu.Unlock()
+				if n >= sc.WaveWaits[w] {
+					break
+				}
+				time.Sleep(time.Millisecond)
+			}
+		}
+		if sc.MetaUpAtWave > 0 && w == sc.MetaUpAtWave {
+			cl.MetaUp()
+			time.Sleep(2 * time.Millisecond)
+		}
 		if w > 0 {
 			if w-1 < len(gates) {
 				select {
@@ -374,7 +394,9 @@ func Run(sc *Scenario) *Result {
 			case <-sub:
 			case <-time.After(time.Millisecond):
 			}
-			gates[w-1].Release()
+			if sc.Holds[w-1].Until == "" {
+				gates[w-1].Release()
+			}
 			<-sub
 		} else {
 			for _, m := range wave {
@@ -384,7 +406,7 @@ func Run(sc *Scenario) *Result {
 				}
 			}
 		}
-		if w > 0 && w-1 < len(gates) {
+		if w > 0 && w-1 < len(gates) && sc.Holds[w-1].Until == "" {
 			gates[w-1].Release()
 		}
 	}
